@@ -876,6 +876,11 @@ package quickfix
 //@   requires rgt(f.template)
 //@   pure
 
+//@ func (t protoGroupElement) Read [C09]
+//@   implements GroupItem.Read
+
+// not checked against the assumed contract of GroupItem.Read (its frame needs "the current group was created in this
+// call" through the loop): for nested groups the frame of the inner Read is an assumption
 //@ func (f *RepeatingGroup) Read [C09]
 //@   requires @one len(tv) >= 1 && valid(tv)
 //@   requires @templ rgt(f.template)
